@@ -65,6 +65,9 @@ type codec struct {
 	rawHint func(r *rand.Rand) []byte
 	// fixed holds named hand-written values (corpus witnesses independent of the generator).
 	fixed map[string]any
+	// rawShare is the percentage of raw-mode cases (default 10); codecs whose interesting
+	// inputs are hand-built frames (TLV fields with odd lengths) ask for more.
+	rawShare int
 }
 
 // tier of the run ("quick" leaves out the few-hundred-kilobyte values)
@@ -194,7 +197,11 @@ func gen(r *rand.Rand, tier string, i int) input {
 	genTier = tier
 	c := pickCodec(r)
 	in := input{Codec: c.name, Seed: r.Uint64() | 1, Tier: tier}
-	switch x := r.IntN(100); {
+	x := r.IntN(100)
+	if c.rawShare > 0 && r.IntN(100) < c.rawShare {
+		x = 99
+	}
+	switch {
 	case x < 34:
 		in.Mode = "value"
 	case x < 52:
